@@ -63,7 +63,41 @@ func shortFuncName(f *ssa.Function) string {
 	return k
 }
 
+// encodeFunc encodes fn, first pruning the auto-proposed loop invariants that are not inductive (Houdini): every
+// candidate is assumed at its loop head and checked for initiation and preservation; refuted candidates are dropped
+// and the function is re-encoded until all remaining candidates are proved. The surviving candidates' obligations
+// are part of the function's obligations, so they add nothing to the trusted base.
 func encodeFunc(P *Program, CS *ContractSet, fn *ssa.Function, ct *Contract) *FuncResult {
+	disabled := map[string]bool{}
+	var res *FuncResult
+	for round := 0; round < 5; round++ {
+		res = encodeFuncOnce(P, CS, fn, ct, disabled)
+		var cands []*Obligation
+		for _, o := range res.Obls {
+			if strings.HasPrefix(o.Kind, "auto-inv") {
+				cands = append(cands, o)
+			}
+		}
+		if len(cands) == 0 {
+			return res
+		}
+		dir := scratchDir("houdini-" + sanitize(res.Name))
+		dischargeAll(cands, dir, 4, false, 16)
+		changed := false
+		for _, o := range cands {
+			if !o.Discharged() && !disabled[o.Detail] {
+				disabled[o.Detail] = true
+				changed = true
+			}
+		}
+		if !changed {
+			return res
+		}
+	}
+	return res
+}
+
+func encodeFuncOnce(P *Program, CS *ContractSet, fn *ssa.Function, ct *Contract, disabled map[string]bool) *FuncResult {
 	res := &FuncResult{Name: shortFuncName(fn)}
 	var known map[Sort]bool = map[Sort]bool{}
 	var last *Enc
@@ -72,7 +106,7 @@ func encodeFunc(P *Program, CS *ContractSet, fn *ssa.Function, ct *Contract) *Fu
 			reach: map[int]string{}, endSt: map[int]*State{}, knownSorts: known, pass: pass, strLits: map[string]string{},
 			typeIDs: map[string]int{}, typeOfID: map[int]types.Type{}, globalIDs: map[string]int{}, abstracted: map[string]int{},
 			usedTrusted: map[string]bool{}, assumptions: map[string]bool{}, occ: map[string]int{}, loops: map[int]*loopInfo{},
-			loopOf: map[int][]*loopInfo{}, dbg: map[string][]dbgRef{}, params: map[string]Val{}, fnName: res.Name}
+			loopOf: map[int][]*loopInfo{}, dbg: map[string][]dbgRef{}, params: map[string]Val{}, fnName: res.Name, disabledCands: disabled}
 		if e.Pkg == nil && fn.Parent() != nil {
 			e.Pkg = fn.Parent().Pkg
 		}
@@ -174,6 +208,7 @@ func (e *Enc) run() {
 	}
 	e.findLoops()
 	e.computeNonEscaping()
+	e.computeFreshEscapes()
 	// requires
 	e.curBlock = 0
 	e.reach[0] = "true"
@@ -617,6 +652,7 @@ func (e *Enc) loopHead(li *loopInfo, st *State, phiIn map[ssa.Value]Val) {
 	// 2. havoc what the loop modifies
 	lm := e.loopModifies(li)
 	if lm.all {
+		e.curInstr = b.Instrs[0]
 		e.havocAll(st)
 	} else {
 		var ss []string
@@ -699,6 +735,7 @@ func (e *Enc) loopInvariants(li *loopInfo) []Clause {
 func (e *Enc) autoInvariants(li *loopInfo, phiIn map[ssa.Value]Val, st *State) {
 	m := e.M
 	b := li.head
+	e.candidateInvariants(li, phiIn, st)
 	for _, ins := range b.Instrs {
 		phi, ok := ins.(*ssa.Phi)
 		if !ok {
@@ -764,7 +801,7 @@ func (e *Enc) backEdge(from, head *ssa.BasicBlock, st *State) {
 		return
 	}
 	invs := e.loopInvariants(li)
-	if len(invs) == 0 {
+	if len(invs) == 0 && len(li.cands) == 0 {
 		return
 	}
 	lname := fmt.Sprintf("loop%d", li.ordinal)
@@ -793,9 +830,21 @@ func (e *Enc) backEdge(from, head *ssa.BasicBlock, st *State) {
 	if !pos.IsValid() {
 		pos = head.Instrs[0].Pos()
 	}
+	for _, c := range li.cands {
+		nv := sub[c.phi]
+		if nv.Bad || len(nv.L) != 1 {
+			e.obligeCand("auto-inv-pres", fmt.Sprintf("%s.%s.%s.from%d", lname, sanitize(c.phi.Comment), c.kind, e.backOrdinal(li, from)), pos, reach, "false", c.key)
+			continue
+		}
+		e.obligeCand("auto-inv-pres", fmt.Sprintf("%s.%s.%s.from%d", lname, sanitize(c.phi.Comment), c.kind, e.backOrdinal(li, from)), pos, reach, e.candTerm(c, nv), c.key)
+	}
 	for i, c := range invs {
 		t := e.evalGoal(c.Expr, env)
 		e.oblige("inv-pres", lname+"."+clauseLabel(c, i)+fmt.Sprintf(".from%d", e.backOrdinal(li, from)), pos, reach, t, "loop invariant preserved: "+c.Text)
+	}
+	if e.Ct == nil {
+		e.inlineSubst, e.inlineHead, e.inlineState = nil, nil, nil
+		return
 	}
 	if dc, ok := e.Ct.LoopDec[li.ordinal]; ok && li.decTerm != "" {
 		d := e.evalExpr(dc.Expr, env)
@@ -820,4 +869,122 @@ func (e *Enc) backOrdinal(li *loopInfo, from *ssa.BasicBlock) int {
 		}
 	}
 	return 0
+}
+
+
+// candidate is an auto-proposed invariant about one loop-head phi.
+type candidate struct {
+	phi   *ssa.Phi
+	kind  string // nonneg | nonempty | lt | le
+	key   string
+	bound ssa.Value // for lt/le
+}
+
+func (e *Enc) candTerm(c candidate, v Val) string {
+	m := e.M
+	switch c.kind {
+	case "nonneg":
+		return m.ile(m.ilit(0), v.L[0])
+	case "nonempty":
+		e.needStr()
+		return m.ilt(m.ilit(0), "(slen "+v.L[0]+")")
+	case "lt", "le":
+		b := e.val(c.bound)
+		if b.Bad || len(b.L) != 1 {
+			return "true"
+		}
+		if c.kind == "lt" {
+			return m.ilt(v.L[0], b.L[0])
+		}
+		return m.ile(v.L[0], b.L[0])
+	}
+	return "true"
+}
+
+// candidateInvariants proposes, assumes and checks (initiation here, preservation at the back edges) simple
+// invariants: integer phis stay non-negative, string phis stay non-empty.
+func (e *Enc) candidateInvariants(li *loopInfo, phiIn map[ssa.Value]Val, st *State) {
+	if e.M != ModeInt {
+		return
+	}
+	b := li.head
+	lname := fmt.Sprintf("loop%d", li.ordinal)
+	for _, ins := range b.Instrs {
+		phi, ok := ins.(*ssa.Phi)
+		if !ok {
+			break
+		}
+		in := phiIn[phi]
+		cur := e.vals[phi]
+		if in.Bad || cur.Bad || len(cur.L) != 1 {
+			continue
+		}
+		var kinds []string
+		if bt, ok := phi.Type().Underlying().(*types.Basic); ok {
+			switch {
+			case bt.Info()&types.IsInteger != 0:
+				if _, signed := intBits(bt); signed {
+					kinds = append(kinds, "nonneg")
+				}
+			case bt.Info()&types.IsString != 0:
+				kinds = append(kinds, "nonempty")
+			}
+		}
+		// rotated loops test the condition at the latch: `next < K` guarding the back edge suggests `phi < K`
+		var bounds []candidate
+		if isInteger(phi.Type()) {
+			for i, p := range b.Preds {
+				if !e.isBackEdge(p, b) {
+					continue
+				}
+				iff, ok := lastInstr(p).(*ssa.If)
+				if !ok {
+					continue
+				}
+				bo, ok := iff.Cond.(*ssa.BinOp)
+				if !ok || bo.X != phi.Edges[i] || p.Succs[0] != b {
+					continue
+				}
+				if ins, isIns := bo.Y.(ssa.Instruction); isIns && ins.Block() != nil && li.blocks[ins.Block().Index] {
+					continue // bound not loop-invariant
+				}
+				switch bo.Op {
+				case token.LSS:
+					bounds = append(bounds, candidate{phi: phi, kind: "lt", bound: bo.Y})
+				case token.LEQ:
+					bounds = append(bounds, candidate{phi: phi, kind: "le", bound: bo.Y})
+				}
+			}
+		}
+		for _, c := range bounds {
+			c.key = fmt.Sprintf("%s:%s:%s:%s:%s", e.fnName, lname, phi.Comment+"."+phi.Name(), c.kind, c.bound.Name())
+			if e.disabledCands[c.key] {
+				continue
+			}
+			e.obligeCand("auto-inv-init", fmt.Sprintf("%s.%s.%s", lname, sanitize(phi.Comment), c.kind), b.Instrs[0].Pos(), e.reach[b.Index], e.candTerm(c, in), c.key)
+			e.emitAssert(b.Index, implies(e.reach[b.Index], e.candTerm(c, cur)))
+			li.cands = append(li.cands, c)
+		}
+		for _, k := range kinds {
+			c := candidate{phi: phi, kind: k, key: fmt.Sprintf("%s:%s:%s:%s", e.fnName, lname, phi.Comment+"."+phi.Name(), k)}
+			if e.disabledCands[c.key] {
+				continue
+			}
+			pos := b.Instrs[0].Pos()
+			e.obligeCand("auto-inv-init", fmt.Sprintf("%s.%s.%s", lname, sanitize(phi.Comment), k), pos, e.reach[b.Index], e.candTerm(c, in), c.key)
+			e.emitAssert(b.Index, implies(e.reach[b.Index], e.candTerm(c, cur)))
+			li.cands = append(li.cands, c)
+		}
+	}
+}
+
+func (e *Enc) obligeCand(kind, anchor string, pos token.Pos, reach, cond, key string) {
+	if e.pass != 2 {
+		return
+	}
+	n := len(e.obls)
+	e.oblige(kind, anchor, pos, reach, cond, "auto-proposed loop invariant ("+key+")")
+	if len(e.obls) > n {
+		e.obls[len(e.obls)-1].Detail = key
+	}
 }
